@@ -19,15 +19,14 @@ def norm_len(t):
 
 
 def nlin(t):
-    return lin(norm_len(t))
+    from expr import nobb
+    return lin(nobb(norm_len(t)))
 
 
 def return_forms(ctx):
-    """set of trees the function may return"""
-    out = []
-    for o in ctx.org.local(0):
-        out.append(norm_len(tree(ctx, o)))
-    return out
+    """semantic alternatives of what the function returns, lengths normalised, block ids dropped"""
+    from expr import ret_alts, nobb, NONE
+    return [nobb(norm_len(t)) for t in ret_alts(ctx) if t != NONE]
 
 
 def rekey(t, frm, to):
@@ -87,71 +86,16 @@ def r_bound_readitems(F, R):
         gctx = Ctx(getb)
         lctx = Ctx(lenb)
         extents = [rekey(t, lenb.key, getb.key) for t in return_forms(lctx)]
+        # `self.len()` itself is the extent too (a bound written against the sibling len())
+        extents.append(("call", (short(adt), "len"), (("place", getb.key, ("arg", 1), ()),), ()))
         param = ("place", getb.key, ("arg", 2), ())
-        # positional access sites: calls taking a position derived from the parameter
-        nsites = 0
-        good = set()
-        for (bi, t) in getb.calls():
-            ce = t.get("callee")
-            tag = callee_tag(ce)
-            args = t["args"]
-            if len(args) < 2:
-                continue
-            pos = norm_len(operand_tree(gctx, args[1]))
-            if not mentions(pos, param):
-                continue
-            recv = trees(gctx, gctx.org.operand(args[0]))
-            where = "%s:%s" % (getb.file, t["line"])
-            if tag[1] == "get" and ce.get("local"):
-                # forward to a sibling accessor: parameter must be passed unchanged
-                nsites += 1
-                ok = lin_eq(nlin(pos), nlin(param))
-                if ok:
-                    good.add(bi)
-                R.check("R-BOUND", getb.label(), ok, construct="forwards position to %s::get" % tag[0],
-                        where=where, detail="position = " + show(pos))
-                continue
-            unchanged = lin_eq(nlin(pos), nlin(param))
-            own = any(extent_is_len_of(e, recv) for e in extents)
-            if tag == ("Index", "index") or (tag == ("IndexContainer", "index") and unchanged and own):
-                # checked indexing of recv by the container itself: fine if recv's own length is
-                # the item's extent and the position is the parameter itself
-                nsites += 1
-                ok = unchanged and own
-                if ok:
-                    good.add(bi)
-                R.check("R-BOUND", getb.label(), ok,
-                        construct="container-checked index into %s" % show(recv), where=where,
-                        detail="position %s; len() returns %s" % (show(pos), [show(e) for e in extents]))
-                continue
-            if tag in NON_FAILSTOP and tag != ("Region", "index"):
-                nsites += 1
-                strict, weak = strict_bound_facts(gctx, bi, param)
-                ok = any(any(lin_eq(nlin(s), nlin(e)) for e in extents) for s in strict)
-                if ok:
-                    good.add(bi)
-                detail = "guards: strict %s, non-strict %s; extent %s" % (
-                    [show(s) for s in strict], [show(s) for s in weak], [show(e) for e in extents])
-                R.check("R-BOUND", getb.label(), ok,
-                        construct="%s::%s at parameter-derived position" % tag, where=where, detail=detail)
-        # built-in indexing (bounds-check asserts)
-        asserts = []
-        for bi in sorted(getb.live_blocks()):
-            t = getb.term(bi)
-            if t["k"] == "assert" and t.get("msg") == "bounds":
-                idx = norm_len(operand_tree(gctx, t["index"]))
-                ln = norm_len(operand_tree(gctx, t["len"]))
-                asserts.append((bi, idx, ln, t))
-                nsites += 1
-                if lin_eq(nlin(idx), nlin(param)) and any(lin_eq(nlin(ln), nlin(e)) for e in extents):
-                    good.add(bi)
+        nsites, good = analyse_get(F, R, getb, gctx, getb, param, extents)
         ok = nsites > 0 and not getb.can_return_avoiding(good)
         R.check("R-BOUND", getb.label(), ok,
                 construct="every returning path passes a strict bound against the item's own extent",
                 where=getb.where(),
-                detail="%d access sites, %d establish the bound; built-in bounds checks %s; extent %s" % (
-                    nsites, len(good), [(show(i), show(l)) for (_, i, l, _) in asserts],
-                    [show(e) for e in extents]))
+                detail="%d access sites, %d blocks establish the bound; extent %s" % (
+                    nsites, len(good), [show(e) for e in extents]))
         # is_empty agreement: is_empty <=> len == 0
         for eb in find_methods(F, adt, "is_empty"):
             ectx = Ctx(eb)
@@ -161,6 +105,79 @@ def r_bound_readitems(F, R):
             R.check("R-BOUND", eb.label(), ok, construct="is_empty agrees with len",
                     where=eb.where(), detail="is_empty = %s; len = %s" % (
                         [show(f) for f in forms], [show(e) for e in extents]))
+
+
+def analyse_get(F, R, getb, ctx, body, param, extents, depth=0):
+    """collects the positional access sites of `body` (a get() or a closure created in it) and
+    returns (#sites, blocks of `body` that establish the strict bound)"""
+    from core import closure_ctxs
+    nsites = 0
+    good = set()
+    for (bi, t) in body.calls():
+        ce = t.get("callee")
+        tag = callee_tag(ce)
+        args = t["args"]
+        if len(args) < 2:
+            continue
+        pos = norm_len(operand_tree(ctx, args[1]))
+        if not mentions(pos, param):
+            continue
+        recv = trees(ctx, ctx.org.operand(args[0]))
+        where = "%s:%s" % (body.file, t["line"])
+        if tag[1] == "get" and ce.get("local"):
+            nsites += 1
+            ok = lin_eq(nlin(pos), nlin(param))
+            if ok:
+                good.add(bi)
+            R.check("R-BOUND", getb.label(), ok, construct="forwards position to %s::get" % tag[0],
+                    where=where, detail="position = " + show(pos))
+            continue
+        unchanged = lin_eq(nlin(pos), nlin(param))
+        own = any(extent_is_len_of(e, recv) for e in extents)
+        if tag == ("Index", "index") or (tag == ("IndexContainer", "index") and unchanged and own):
+            nsites += 1
+            ok = unchanged and own
+            if ok:
+                good.add(bi)
+            R.check("R-BOUND", getb.label(), ok,
+                    construct="container-checked index into %s" % show(recv), where=where,
+                    detail="position %s; len() returns %s" % (show(pos), [show(e) for e in extents]))
+            continue
+        if tag in NON_FAILSTOP and tag != ("Region", "index"):
+            nsites += 1
+            strict, weak = strict_bound_facts(ctx, bi, param)
+            ok = any(any(lin_eq(nlin(s), nlin(e)) for e in extents) for s in strict)
+            if ok:
+                good.add(bi)
+            detail = "guards: strict %s, non-strict %s; extent %s" % (
+                [show(s) for s in strict], [show(s) for s in weak], [show(e) for e in extents])
+            R.check("R-BOUND", getb.label(), ok,
+                    construct="%s::%s at parameter-derived position" % tag, where=where, detail=detail)
+    # built-in indexing (bounds-check asserts)
+    for bi in sorted(body.live_blocks()):
+        t = body.term(bi)
+        if t["k"] == "assert" and t.get("msg") == "bounds":
+            idx = norm_len(operand_tree(ctx, t["index"]))
+            ln = norm_len(operand_tree(ctx, t["len"]))
+            if not mentions(idx, param):
+                continue
+            nsites += 1
+            if lin_eq(nlin(idx), nlin(param)) and any(lin_eq(nlin(ln), nlin(e)) for e in extents):
+                good.add(bi)
+    # closures created here (combinator forms): a consuming call is good when every closure it
+    # receives establishes the bound on all of its own paths
+    if depth < 3:
+        per_call = {}
+        for (cctx, cbi, consumers) in closure_ctxs(F, ctx):
+            n2, g2 = analyse_get(F, R, getb, cctx, cctx.body, param, extents, depth + 1)
+            nsites += n2
+            cgood = n2 > 0 and not cctx.body.can_return_avoiding(g2)
+            for cb in consumers:
+                per_call.setdefault(cb, []).append(cgood)
+        for cb, flags in per_call.items():
+            if flags and all(flags):
+                good.add(cb)
+    return nsites, good
 
 
 def mentions(t, sub):
